@@ -17,7 +17,7 @@ for p in props:
             "evidence_file": f"/verif/evidence/{p['id']}.json",
             "replay_cmd_template": f"./check {p['id']} --replay {{path}}",
             "engine": "govc",
-            "level_claimed": {"category": "proof", "text": c['text'], "design_ref": c.get('design_ref', f"DESIGN.md §4 {p['id']}")},
+            "level_claimed": {"category": c.get('category', "proof"), "text": c['text'], "design_ref": c.get('design_ref', f"DESIGN.md §4 {p['id']}")},
             "level_note": c['note'],
             "technique": c.get('technique', "contract-based deductive verification: weakest-precondition VCs over go/ssa of the real functions, contracts in //go:build verif comment files, discharged by z3/cvc5"),
         })
